@@ -298,7 +298,7 @@ func checkC14HeaderAs(w *World, r *Report, ri *recInfo, id string) {
 				for _, ft := range factsAtBlock(x.Block()) {
 					if bo, ok := ft.Cond.(*ssa.BinOp); ok {
 						if ex, ok := bo.X.(*ssa.Extract); ok && ex.Index == 0 {
-							if z, ok := constInt(bo.Y); ok && z == 0 && ((bo.Op == token.GTR && ft.Val) || (bo.Op == token.NEQ && ft.Val)) {
+							if z, ok := constInt(bo.Y); ok && z == 0 && ((bo.Op == token.GTR && ft.Val) || (bo.Op == token.NEQ && ft.Val) || (bo.Op == token.LEQ && !ft.Val) || (bo.Op == token.EQL && !ft.Val)) {
 								positive = true
 							}
 						}
